@@ -10,6 +10,9 @@
 #define RET    __CPROVER_return_value
 
 static struct env_log G_EV;   /* environment log at the end of the event machine's step */
+static int G_HES;             /* hold_exit_status at the end of the event machine's step */
+static uint8_t G_UBYTE;       /* witness byte g_w of the event half at the end of the event machine's step */
+static size_t g_w;            /* witness index into the event half */
 
 /* ---------------------------------------------------------------------------------------------
  * vocabulary of the property statements
@@ -75,15 +78,17 @@ static _Bool p_ring_empty(const struct cat_object *s) { return UF(s).unsolicited
 
 /* bytewise equality of the command-machine part of two objects (everything outside unsolicited_fsm,
  * current_char excepted on request) */
-static _Bool p_at_same(const struct cat_object *a, const struct cat_object *b, _Bool ignore_current_char)
+static _Bool p_at_same_x(const struct cat_object *a, const struct cat_object *b, _Bool ignore_current_char, _Bool ignore_hes)
 {
         return a->desc == b->desc && a->io == b->io && a->mutex == b->mutex && a->index == b->index && a->partial_cntr == b->partial_cntr &&
                a->length == b->length && a->position == b->position && a->write_size == b->write_size && a->commands_num == b->commands_num &&
                a->cmd == b->cmd && a->var == b->var && a->cmd_type == b->cmd_type && (ignore_current_char || a->current_char == b->current_char) &&
-               a->state == b->state && a->cr_flag == b->cr_flag && a->hold_state_flag == b->hold_state_flag && a->hold_exit_status == b->hold_exit_status &&
+               a->state == b->state && a->cr_flag == b->cr_flag && a->hold_state_flag == b->hold_state_flag && (ignore_hes || a->hold_exit_status == b->hold_exit_status) &&
                a->write_buf == b->write_buf && a->write_state == b->write_state && a->write_state_after == b->write_state_after &&
                a->implicit_write_flag == b->implicit_write_flag;
 }
+
+static _Bool p_at_same(const struct cat_object *a, const struct cat_object *b, _Bool ignore_current_char) { return p_at_same_x(a, b, ignore_current_char, 0); }
 
 /* the command half is bytewise what it was at the call */
 static _Bool p_abuf_unchanged(void)
@@ -95,11 +100,122 @@ static _Bool p_abuf_unchanged(void)
         return 1;
 }
 
+
+/* no variable's storage changed in this step */
+static _Bool p_vdata_unchanged(void)
+{
+        size_t a, b, c;
+        for (a = 0; a < H_NC; a++)
+                for (b = 0; b < H_NV; b++)
+                        for (c = 0; c < H_DS; c++)
+                                if (h_vdata[a][b][c] != g_oldvdata[a][b][c])
+                                        return 0;
+        return 1;
+}
+
+/* only variables of command ci may have changed */
+static _Bool p_vdata_unchanged_except(size_t ci)
+{
+        size_t a, b, c;
+        for (a = 0; a < H_NC; a++)
+                for (b = 0; b < H_NV; b++)
+                        for (c = 0; c < H_DS; c++)
+                                if (a != ci && h_vdata[a][b][c] != g_oldvdata[a][b][c])
+                                        return 0;
+        return 1;
+}
+
+/* the first n bytes of the command half are what they were at the call */
+static _Bool p_abuf_prefix_unchanged(size_t n)
+{
+        size_t i;
+        for (i = 0; i < H_BUFSZ; i++)
+                if (i < n && i < H_CAPA && h_buf[i] != g_oldbuf[i])
+                        return 0;
+        return 1;
+}
+
+/* the event half is bytewise what it was at the call */
+static _Bool p_ubuf_unchanged(void)
+{
+        size_t i;
+#if H_SHARED
+        for (i = 0; i < H_BUFSZ; i++)
+                if (i >= (H_BUFSZ >> 1) && h_buf[i] != g_oldbuf[i])
+                        return 0;
+#else
+        for (i = 0; i < H_UBUFSZ; i++)
+                if (h_ubuf[i] != g_oldubuf[i])
+                        return 0;
+#endif
+        return 1;
+}
+
+/* the event machine part of the object (incl. the queue) is what it was */
+static _Bool p_un_same(const struct cat_object *a, const struct cat_object *b)
+{
+        size_t j;
+        if (!(UST(a) == UST(b) && UF(a).index == UF(b).index && UF(a).position == UF(b).position && UF(a).cmd == UF(b).cmd && UF(a).var == UF(b).var &&
+              UF(a).cmd_type == UF(b).cmd_type && UF(a).write_buf == UF(b).write_buf && UF(a).write_state == UF(b).write_state &&
+              UF(a).write_state_after == UF(b).write_state_after && UF(a).unsolicited_cmd_buffer_tail == UF(b).unsolicited_cmd_buffer_tail &&
+              UF(a).unsolicited_cmd_buffer_head == UF(b).unsolicited_cmd_buffer_head && UF(a).unsolicited_cmd_buffer_items_count == UF(b).unsolicited_cmd_buffer_items_count))
+                return 0;
+        for (j = 0; j < H_RING; j++)
+                if (UF(a).unsolicited_cmd_buffer[j].cmd != UF(b).unsolicited_cmd_buffer[j].cmd || UF(a).unsolicited_cmd_buffer[j].type != UF(b).unsolicited_cmd_buffer[j].type)
+                        return 0;
+        return 1;
+}
+
+/* which handler kind a looping state invokes (E_KIND_*), -1 if the state invokes none */
+static int p_loop_kind(cat_state st)
+{
+        return st == CAT_STATE_RUN_LOOP ? E_KIND_RUN : st == CAT_STATE_READ_LOOP ? E_KIND_READ : st == CAT_STATE_WRITE_LOOP ? E_KIND_WRITE : st == CAT_STATE_TEST_LOOP ? E_KIND_TEST : -1;
+}
+
+/* hold entered by this step */
+static _Bool p_hold_entered(const struct cat_object *s) { return s->state == CAT_STATE_HOLD && s->hold_state_flag != 0 && s->hold_exit_status == 0; }
+
+/* command list started: first command, no line printed yet */
+static _Bool p_cmd_list_started(const struct cat_object *s) { return s->state == CAT_STATE_PRINT_CMD && s->index == 0 && s->length == 0 && s->cmd_type == CAT_CMD_TYPE_NONE; }
+
+/* a response is re-formatted from scratch: the post-state is one the formatter start can produce, and nothing is being flushed as data */
+static _Bool p_reformat_read(const struct cat_object *s)
+{
+        return (s->state == CAT_STATE_FORMAT_READ_ARGS && s->index == 0 && s->var == s->cmd->var) || s->state == CAT_STATE_READ_LOOP || p_ack_error_started(s);
+}
+static _Bool p_reformat_test(const struct cat_object *s)
+{
+        return (s->state == CAT_STATE_FORMAT_TEST_ARGS && s->index == 0 && s->var == s->cmd->var) || s->state == CAT_STATE_TEST_LOOP ||
+               p_unit_started(s, CAT_STATE_AFTER_FLUSH_OK) || p_ack_error_started(s);
+}
+
+/* access possible in the sense of the property text: some variable is readable (RW or RO) / writable (RW or WO) */
+static _Bool p_any_var(const struct cat_command *c, cat_var_access other)
+{
+        size_t i;
+        if (c->var == NULL)
+                return 0;
+        for (i = 0; i < H_NV; i++)
+                if (i < c->var_num && (c->var[i].access == CAT_VAR_ACCESS_READ_WRITE || c->var[i].access == other))
+                        return 1;
+        return 0;
+}
+#define p_readable(c) p_any_var((c), CAT_VAR_ACCESS_READ_ONLY)
+#define p_writable(c) p_any_var((c), CAT_VAR_ACCESS_WRITE_ONLY)
+
+/* event machine: unit started with continuation t */
+static _Bool p_ev_unit_started(const struct cat_object *s, cat_unsolicited_state t)
+{
+        return UST(s) == CAT_UNSOLICITED_STATE_FLUSH_IO_WRITE_WAIT && UF(s).write_state == V_WS_BEFORE && UF(s).position == 0 &&
+               UF(s).write_buf == &h_crlf[s->cr_flag ? 0 : 1] && UF(s).write_state_after == t;
+}
+static _Bool p_ev_finished(const struct cat_object *s) { return UST(s) == CAT_UNSOLICITED_STATE_IDLE && UF(s).cmd == NULL; }
+
 /* ---------------------------------------------------------------------------------------------
  * event machine step
  * ------------------------------------------------------------------------------------------- */
 #define EVENT_ASSIGNS \
-        self->unsolicited_fsm, self->hold_exit_status, E, G_EV, __CPROVER_object_upto(H_UBUF, H_CAPU)
+        self->unsolicited_fsm, self->hold_exit_status, E, G_EV, G_HES, G_UBYTE, __CPROVER_object_upto(H_UBUF, H_CAPU)
 
 static cat_status unsolicited_events_service(struct cat_object *self)
 __CPROVER_requires(self == &h_obj && inv_wf(self) && inv_ring(self) && inv_ev(self))
@@ -115,6 +231,29 @@ __CPROVER_assigns(EVENT_ASSIGNS)
 /* [C14:ev-holdexit]     */ __CPROVER_ensures(self->hold_exit_status == OLD(self->hold_exit_status) || (self->hold_state_flag != 0 && self->hold_exit_status != 0))
 /* [C15:ev-ret]          */ __CPROVER_ensures(RET == CAT_STATUS_OK || RET == CAT_STATUS_BUSY)
 /* [C15:ev-ok-idle]      */ __CPROVER_ensures(RET == CAT_STATUS_OK ==> OLD(UST(self)) == CAT_UNSOLICITED_STATE_IDLE)
+/* ---- C10/C14: return-code table of event handlers (no result code for events) ---- */
+#define EV_OLD_ST   OLD(UST(self))
+#define EV_HRET     (E.h_ret)
+#define EV_CALLED   (E.h_calls == OLD(E.h_calls) + 1)
+/* [C02,C06,C10:ev-handler-call] */ __CPROVER_ensures(EV_CALLED ==> ((EV_OLD_ST == CAT_UNSOLICITED_STATE_READ_LOOP && E.h_kind == E_KIND_READ) || (EV_OLD_ST == CAT_UNSOLICITED_STATE_TEST_LOOP && E.h_kind == E_KIND_TEST)) && E.h_cmd == OLD(UF(self).cmd))
+/* [C10:ev-loop-calls]   */ __CPROVER_ensures((EV_OLD_ST == CAT_UNSOLICITED_STATE_READ_LOOP || EV_OLD_ST == CAT_UNSOLICITED_STATE_TEST_LOOP) ==> EV_CALLED)
+/* [C06:ev-handler-args] */ __CPROVER_ensures(EV_CALLED ==> (E.h_data == (const uint8_t *)H_UBUF && E.h_size == OLD(UF(self).position) && E.h_max == H_CAPU && E.h_nul_ok))
+/* [C10:ev-ok]           */ __CPROVER_ensures((EV_CALLED && EV_HRET == CAT_RETURN_STATE_OK) ==> p_ev_finished(self))
+/* [C10:ev-data-ok]      */ __CPROVER_ensures((EV_CALLED && EV_HRET == CAT_RETURN_STATE_DATA_OK) ==> p_ev_unit_started(self, CAT_UNSOLICITED_STATE_AFTER_FLUSH_OK))
+/* [C10:ev-data-next]    */ __CPROVER_ensures((EV_CALLED && EV_HRET == CAT_RETURN_STATE_DATA_NEXT) ==> p_ev_unit_started(self, E.h_kind == E_KIND_READ ? CAT_UNSOLICITED_STATE_AFTER_FLUSH_FORMAT_READ_ARGS : CAT_UNSOLICITED_STATE_AFTER_FLUSH_FORMAT_TEST_ARGS))
+/* [C10:ev-next]         */ __CPROVER_ensures((EV_CALLED && EV_HRET == CAT_RETURN_STATE_NEXT) ==> (UST(self) != CAT_UNSOLICITED_STATE_FLUSH_IO_WRITE && (UST(self) != CAT_UNSOLICITED_STATE_FLUSH_IO_WRITE_WAIT || (E.h_kind == E_KIND_TEST && p_ev_unit_started(self, CAT_UNSOLICITED_STATE_AFTER_FLUSH_OK)))))
+/* [C10:ev-error]        */ __CPROVER_ensures((EV_CALLED && (EV_HRET == CAT_RETURN_STATE_ERROR || EV_HRET < -1 || EV_HRET > CAT_RETURN_STATE_PRINT_CMD_LIST_OK || (EV_HRET == CAT_RETURN_STATE_PRINT_CMD_LIST_OK))) ==> p_ev_finished(self))
+/* [C14:ev-hold-exit]    */ __CPROVER_ensures((EV_CALLED && (EV_HRET == CAT_RETURN_STATE_HOLD_EXIT_OK || EV_HRET == CAT_RETURN_STATE_HOLD_EXIT_ERROR)) ==> (p_ev_finished(self) && (self->hold_state_flag != 0 ==> (self->hold_exit_status != 0 && (OLD(self->hold_exit_status) == 0 && E.reent_hold == OLD(E.reent_hold) ==> ((self->hold_exit_status > 0) == (EV_HRET == CAT_RETURN_STATE_HOLD_EXIT_OK)))))))
+/* [C10:ev-var-read-fail]*/ __CPROVER_ensures((E.vr_calls == OLD(E.vr_calls) + 1 && E.v_ret != 0) ==> p_ev_finished(self))
+/* [C10:ev-after-flush]  */ __CPROVER_ensures((EV_OLD_ST == CAT_UNSOLICITED_STATE_AFTER_FLUSH_OK || EV_OLD_ST == CAT_UNSOLICITED_STATE_AFTER_FLUSH_RESET) ==> p_ev_finished(self))
+/* ---- C13: the queue is consumed only by an idle event machine, one event per step, head first ---- */
+#define RING_CNT(s) (UF(s).unsolicited_cmd_buffer_items_count)
+#define RING_HEAD(s) (UF(s).unsolicited_cmd_buffer_head)
+/* [C13:ev-pop-only-idle]*/ __CPROVER_ensures((EV_OLD_ST != CAT_UNSOLICITED_STATE_IDLE && E.reent_trig == OLD(E.reent_trig)) ==> (RING_CNT(self) == OLD(RING_CNT(self)) && RING_HEAD(self) == OLD(RING_HEAD(self))))
+/* [C13:ev-pop-head]     */ __CPROVER_ensures((EV_OLD_ST == CAT_UNSOLICITED_STATE_IDLE && OLD(RING_CNT(self)) > 0 && E.reent_trig == OLD(E.reent_trig)) ==> (RING_CNT(self) == OLD(RING_CNT(self)) - 1 && RING_HEAD(self) == (OLD(RING_HEAD(self)) + 1) % H_RING))
+/* [C13:ev-idle-empty]   */ __CPROVER_ensures((EV_OLD_ST == CAT_UNSOLICITED_STATE_IDLE && OLD(RING_CNT(self)) == 0) ==> (p_ev_finished(self) && RET == CAT_STATUS_OK && RING_CNT(self) == 0))
+/* [C13:ev-in-progress]  */ __CPROVER_ensures((EV_OLD_ST == CAT_UNSOLICITED_STATE_IDLE && OLD(RING_CNT(self)) > 0 && !p_ev_finished(self)) ==> (UF(self).cmd == OLD(UF(self).unsolicited_cmd_buffer[UF(self).unsolicited_cmd_buffer_head].cmd) && UF(self).cmd_type == OLD(UF(self).unsolicited_cmd_buffer[UF(self).unsolicited_cmd_buffer_head].type)))
+/* [C13:ev-cmd-stable]   */ __CPROVER_ensures((EV_OLD_ST != CAT_UNSOLICITED_STATE_IDLE && !p_ev_finished(self)) ==> (UF(self).cmd == OLD(UF(self).cmd) && UF(self).cmd_type == OLD(UF(self).cmd_type)))
 /* [ENV:ev-ghost]        */ __CPROVER_ensures(EV_GHOST_CLAUSE)
 ;
 
@@ -125,7 +264,7 @@ cat_status cat_service(struct cat_object *self)
 __CPROVER_requires(self == &h_obj && inv_wf(self) && inv_ring(self) && inv_ev(self) && inv_excl(self) && inv_hold(self) && inv_live(self))
 /* standing assumption: size_t counters do not wrap (a line is shorter than 2^64 bytes) */
 __CPROVER_requires(self->length < (size_t)-1)
-__CPROVER_assigns(*self, E, EL, G_EV, g_sat, g_ndig, g_size, g_nesc, g_src, g_esc, __CPROVER_object_whole(h_buf), __CPROVER_object_whole(h_vdata) SERVICE_EXTRA_ASSIGNS)
+__CPROVER_assigns(*self, E, EL, G_EV, G_HES, G_UBYTE, g_sat, g_ndig, g_size, g_nesc, g_src, g_esc, __CPROVER_object_whole(h_buf), __CPROVER_object_whole(h_vdata) SERVICE_EXTRA_ASSIGNS)
 /* [INV:wf]              */ __CPROVER_ensures(inv_wf(self))
 /* [INV:ring]            */ __CPROVER_ensures(inv_ring(self))
 /* [INV:ev]              */ __CPROVER_ensures(inv_ev(self))
@@ -142,8 +281,8 @@ __CPROVER_assigns(*self, E, EL, G_EV, g_sat, g_ndig, g_size, g_nesc, g_src, g_es
 /* [C01:phase-acking]    */ __CPROVER_ensures((RAN && p_phase(&g_old) == PH_ACKING) ==> (p_phase(self) == PH_ACKING || (p_phase(self) == PH_BLANK && g_old.state == CAT_STATE_AFTER_FLUSH_RESET)))
 /* [C01,C11:ack-frozen]  */ __CPROVER_ensures((RAN && p_phase(&g_old) == PH_ACKING) ==> (p_abuf_unchanged() && AT_HCALLS == 0))
 /* ---- C11/C12: output discipline ---- */
-/* [C11,C12:one-write]   */ __CPROVER_ensures(AT_WRITES == 0 || (AT_WRITES == 1 && RAN && g_old.state == CAT_STATE_FLUSH_IO_WRITE))
-/* [C11,C12:write-byte]  */ __CPROVER_ensures(AT_WRITES == 1 ==> (E.wr_ch == g_old.write_buf[g_old.position] && E.wr_ch != 0 && self->state == CAT_STATE_FLUSH_IO_WRITE && self->write_buf == g_old.write_buf && self->write_state == g_old.write_state && self->position == g_old.position + (E.wr_ok ? 1 : 0)))
+/* [C01,C11,C12:one-write] */ __CPROVER_ensures(AT_WRITES == 0 || (AT_WRITES == 1 && RAN && g_old.state == CAT_STATE_FLUSH_IO_WRITE))
+/* [C01,C11,C12:write-byte] */ __CPROVER_ensures(AT_WRITES == 1 ==> (E.wr_ch == g_old.write_buf[g_old.position] && E.wr_ch != 0 && self->state == CAT_STATE_FLUSH_IO_WRITE && self->write_buf == g_old.write_buf && self->write_state == g_old.write_state && self->position == g_old.position + (E.wr_ok ? 1 : 0)))
 /* ---- C15: OK only when quiescent ---- */
 /* [C15:ret]             */ __CPROVER_ensures(RET == CAT_STATUS_OK || RET == CAT_STATUS_BUSY || RET == CAT_STATUS_ERROR_MUTEX_LOCK || RET == CAT_STATUS_ERROR_MUTEX_UNLOCK)
 /* [C15:ok-quiescent]    */ __CPROVER_ensures(RET == CAT_STATUS_OK ==> (p_ring_empty(self) && UST(self) == CAT_UNSOLICITED_STATE_IDLE && p_reading_state(self->state) && self->state == g_old.state && AT_READS == 1 && !E.rd_avail && AT_WRITES == 0 && AT_HCALLS == 0))
@@ -153,6 +292,67 @@ __CPROVER_assigns(*self, E, EL, G_EV, g_sat, g_ndig, g_size, g_nesc, g_src, g_es
 /* [C16:lock-fail]       */ __CPROVER_ensures((g_old.mutex != NULL && EL.lock_ret != 0) ==> (RET == CAT_STATUS_ERROR_MUTEX_LOCK && p_at_same(&g_old, self, 0) && E.rd_calls == 0 && E.wr_calls == 0 && E.h_calls == 0 && E.vr_calls == 0 && E.vw_calls == 0))
 /* [C16:unlock-fail]     */ __CPROVER_ensures((g_old.mutex != NULL && EL.lock_ret == 0 && EL.unlock_ret != 0) ==> RET == CAT_STATUS_ERROR_MUTEX_UNLOCK)
 /* [C16:nothing-outside] */ __CPROVER_ensures((g_old.mutex != NULL && EL.lock_ret == 0) ==> (p_at_same(&g_old, &EL.at_lock, 0) && p_at_same(&EL.at_unlock, self, 0)))
+/* ---- C02 (dispatch part): at most one command handler per step, of the kind the state stands for, on the resolved command ---- */
+/* [C02,C09,C10:one-handler] */ __CPROVER_ensures(AT_HCALLS == 0 || (AT_HCALLS == 1 && RAN && p_loop_kind(g_old.state) >= 0))
+/* [C02,C09:handler-kind] */ __CPROVER_ensures(AT_HCALLS == 1 ==> (E.h_kind == p_loop_kind(g_old.state) && E.h_cmd == g_old.cmd))
+/* [C10:loop-calls]      */ __CPROVER_ensures((RAN && p_loop_kind(g_old.state) >= 0) ==> AT_HCALLS == 1)
+/* [C02,C09:var-callback-current] */ __CPROVER_ensures((AT_VWCALLS + AT_VRCALLS > 0) ==> (AT_VWCALLS + AT_VRCALLS == 1 && E.v_var == g_old.var && ((AT_VWCALLS == 1 && g_old.state == CAT_STATE_PARSE_WRITE_ARGS) || (AT_VRCALLS == 1 && g_old.state == CAT_STATE_FORMAT_READ_ARGS))))
+/* [C04,C05,C08,C09:vars-frame] */ __CPROVER_ensures(g_old.state == CAT_STATE_PARSE_WRITE_ARGS ? p_vdata_unchanged_except(p_cmd_index(g_old.cmd)) : p_vdata_unchanged())
+/* ---- C06: argument collection and hand-over ---- */
+#define PCA_BYTE   (RAN && g_old.state == CAT_STATE_PARSE_COMMAND_ARGS && E.rd_avail)
+#define PCA_TESTQ  (g_old.length == 0 && E.rd_ch == '?' && (g_old.cmd->test != NULL || p_has_vars(g_old.cmd)) && !g_old.cmd->implicit_write)
+/* [C06:collect-fits]    */ __CPROVER_ensures((PCA_BYTE && E.rd_ch != '\n' && E.rd_ch != '\r' && !PCA_TESTQ && g_old.length + 1 < H_CAPA) ==> (self->state == CAT_STATE_PARSE_COMMAND_ARGS && self->length == g_old.length + 1 && ABUFP[g_old.length] == E.rd_ch && ABUFP[self->length] == 0 && p_abuf_prefix_unchanged(g_old.length)))
+/* [C01,C06:collect-overlong] */ __CPROVER_ensures((PCA_BYTE && E.rd_ch != '\n' && E.rd_ch != '\r' && !PCA_TESTQ && g_old.length + 1 >= H_CAPA) ==> self->state == CAT_STATE_ERROR)
+/* [C06,C20:collect-cr]  */ __CPROVER_ensures((PCA_BYTE && E.rd_ch == '\r') ==> (self->state == CAT_STATE_PARSE_COMMAND_ARGS && self->length == g_old.length && p_abuf_unchanged() && self->cr_flag != 0))
+/* [C02:test-suffix]     */ __CPROVER_ensures((PCA_BYTE && E.rd_ch != '\n' && E.rd_ch != '\r') ==> ((self->state == CAT_STATE_WAIT_TEST_ACKNOWLEDGE) == PCA_TESTQ && (PCA_TESTQ ==> self->cmd_type == CAT_CMD_TYPE_TEST)))
+/* [C06:write-handler-args] */ __CPROVER_ensures((AT_HCALLS == 1 && E.h_kind == E_KIND_WRITE) ==> (E.h_data == (const uint8_t *)h_buf && E.h_size == g_old.length && E.h_args == g_old.index && E.h_nul_ok))
+/* [C06:args-frozen]     */ __CPROVER_ensures((RAN && g_old.state == CAT_STATE_PARSE_WRITE_ARGS) ==> (p_abuf_unchanged() || p_ack_ok_started(self) || p_ack_error_started(self)))
+/* [C06:rt-handler-args] */ __CPROVER_ensures((AT_HCALLS == 1 && (E.h_kind == E_KIND_READ || E.h_kind == E_KIND_TEST)) ==> (E.h_data == (const uint8_t *)h_buf && E.h_size == g_old.position && E.h_max == H_CAPA && E.h_nul_ok))
+/* [C06:error-state-inert] */ __CPROVER_ensures((RAN && g_old.state == CAT_STATE_ERROR) ==> (AT_HCALLS == 0 && AT_VWCALLS == 0 && AT_VRCALLS == 0 && (self->state == CAT_STATE_ERROR || (E.rd_avail && E.rd_ch == '\n' && p_ack_error_started(self)))))
+/* ---- C08/C09: refusal of request forms the command does not offer (dispatcher) ---- */
+#define PCA_LF     (PCA_BYTE && E.rd_ch == '\n')
+/* [C08,C09:write-dispatch] */ __CPROVER_ensures(PCA_LF ==> (g_old.cmd->only_test ? p_ack_error_started(self) : p_writable(g_old.cmd) ? (p_no_nul_before((const char *)g_oldbuf, g_old.length, H_CAPA) ? (self->state == CAT_STATE_PARSE_WRITE_ARGS && self->index == 0 && self->position == 0 && self->var == &g_old.cmd->var[0]) : p_ack_error_started(self)) : g_old.cmd->write != NULL ? (self->state == CAT_STATE_WRITE_LOOP && self->index == 0) : p_ack_error_started(self)))
+#define CF_STEP    (RAN && g_old.state == CAT_STATE_COMMAND_FOUND)
+/* [C08,C09:run-dispatch]  */ __CPROVER_ensures((CF_STEP && g_old.cmd_type == CAT_CMD_TYPE_RUN) ==> ((!g_old.cmd->only_test && g_old.cmd->run != NULL) ? self->state == CAT_STATE_RUN_LOOP : p_ack_error_started(self)))
+/* [C08,C09:read-dispatch] */ __CPROVER_ensures((CF_STEP && g_old.cmd_type == CAT_CMD_TYPE_READ) ==> ((!g_old.cmd->only_test && (p_readable(g_old.cmd) || g_old.cmd->read != NULL)) ? (p_reformat_read(self) && (self->state == CAT_STATE_FORMAT_READ_ARGS) == (p_readable(g_old.cmd) && !p_ack_error_started(self))) : p_ack_error_started(self)))
+/* [C06:write-collect-start] */ __CPROVER_ensures((CF_STEP && g_old.cmd_type == CAT_CMD_TYPE_WRITE) ==> (self->state == CAT_STATE_PARSE_COMMAND_ARGS && self->length == 0 && ABUFP[0] == 0))
+/* ---- C10/C14: return-code table of solicited handlers ---- */
+#define HRET       (E.h_ret)
+#define HCALL(k)   (AT_HCALLS == 1 && E.h_kind == (k))
+#define HANY       (AT_HCALLS == 1)
+#define HRT        (AT_HCALLS == 1 && (E.h_kind == E_KIND_READ || E.h_kind == E_KIND_TEST))
+#define HWR        (AT_HCALLS == 1 && (E.h_kind == E_KIND_WRITE || E.h_kind == E_KIND_RUN))
+/* [C10:ok]              */ __CPROVER_ensures((HANY && HRET == CAT_RETURN_STATE_OK) ==> p_ack_ok_started(self))
+/* [C10:error]           */ __CPROVER_ensures((HANY && (HRET == CAT_RETURN_STATE_ERROR || HRET < -1 || HRET > CAT_RETURN_STATE_PRINT_CMD_LIST_OK)) ==> p_ack_error_started(self))
+/* [C10:rt-data-ok]      */ __CPROVER_ensures((HRT && HRET == CAT_RETURN_STATE_DATA_OK) ==> p_unit_started(self, CAT_STATE_AFTER_FLUSH_OK))
+/* [C10:rt-data-next]    */ __CPROVER_ensures((HRT && HRET == CAT_RETURN_STATE_DATA_NEXT) ==> p_unit_started(self, E.h_kind == E_KIND_READ ? CAT_STATE_AFTER_FLUSH_FORMAT_READ_ARGS : CAT_STATE_AFTER_FLUSH_FORMAT_TEST_ARGS))
+/* [C10:rt-next]         */ __CPROVER_ensures((HRT && HRET == CAT_RETURN_STATE_NEXT) ==> (E.h_kind == E_KIND_READ ? p_reformat_read(self) : p_reformat_test(self)))
+/* [C10:wr-ok]           */ __CPROVER_ensures((HWR && HRET == CAT_RETURN_STATE_DATA_OK) ==> p_ack_ok_started(self))
+/* [C10:wr-next]         */ __CPROVER_ensures((HWR && (HRET == CAT_RETURN_STATE_NEXT || HRET == CAT_RETURN_STATE_DATA_NEXT)) ==> (self->state == g_old.state && self->cmd == g_old.cmd && self->length == g_old.length && self->index == g_old.index && p_abuf_unchanged()))
+/* [C10:list]            */ __CPROVER_ensures((HANY && HRET == CAT_RETURN_STATE_PRINT_CMD_LIST_OK) ==> ((E.h_kind == E_KIND_TEST || E.h_kind == E_KIND_RUN) ? p_cmd_list_started(self) : p_ack_error_started(self)))
+/* [C10:wr-invalid]      */ __CPROVER_ensures((HWR && (HRET == CAT_RETURN_STATE_HOLD_EXIT_OK || HRET == CAT_RETURN_STATE_HOLD_EXIT_ERROR)) ==> p_ack_error_started(self))
+/* [C14:hold-enter]      */ __CPROVER_ensures((HANY && HRET == CAT_RETURN_STATE_HOLD) ==> p_hold_entered(self))
+/* [C10:after-flush-ok]  */ __CPROVER_ensures((RAN && g_old.state == CAT_STATE_AFTER_FLUSH_OK) ==> p_ack_ok_started(self))
+/* [C10:after-flush-fmt] */ __CPROVER_ensures((RAN && g_old.state == CAT_STATE_AFTER_FLUSH_FORMAT_READ_ARGS) ==> p_reformat_read(self))
+/* [C10:after-flush-fmt-test] */ __CPROVER_ensures((RAN && g_old.state == CAT_STATE_AFTER_FLUSH_FORMAT_TEST_ARGS) ==> p_reformat_test(self))
+/* [C04,C05,C10:var-write-fail] */ __CPROVER_ensures((AT_VWCALLS == 1 && E.v_ret != 0) ==> p_ack_error_started(self))
+/* [C10:var-read-fail]   */ __CPROVER_ensures((AT_VRCALLS == 1 && E.v_ret != 0) ==> p_ack_error_started(self))
+/* ---- C14: hold ---- */
+#define HOLD_STEP  (RAN && g_old.state == CAT_STATE_HOLD)
+#define HES        (G_HES)  /* release request as seen by the command machine: after the event machine's step */
+/* [C14:hold-wait]       */ __CPROVER_ensures((HOLD_STEP && HES == 0) ==> (p_at_same_x(&g_old, self, 0, 1) && self->hold_exit_status == 0 && p_abuf_unchanged() && (UNLOCK_OK ==> RET == CAT_STATUS_BUSY)))
+/* [C14:hold-release-ok] */ __CPROVER_ensures((HOLD_STEP && HES > 0) ==> (p_ack_ok_started(self) && self->hold_state_flag == 0))
+/* [C14:hold-release-err]*/ __CPROVER_ensures((HOLD_STEP && HES < 0) ==> (p_ack_error_started(self) && self->hold_state_flag == 0))
+/* [C14:hold-only-from-handler] */ __CPROVER_ensures((self->state == CAT_STATE_HOLD && g_old.state != CAT_STATE_HOLD) ==> (HANY && HRET == CAT_RETURN_STATE_HOLD))
+/* ---- C20: line ending mirrors the request ---- */
+/* [C20:cr-set]          */ __CPROVER_ensures((self->cr_flag != 0 && g_old.cr_flag == 0) ==> (AT_READS == 1 && E.rd_avail && E.rd_ch == '\r' && g_old.state != CAT_STATE_IDLE))
+/* [C20:cr-seen]         */ __CPROVER_ensures((AT_READS == 1 && E.rd_avail && E.rd_ch == '\r' && g_old.state != CAT_STATE_IDLE) ==> self->cr_flag != 0)
+/* [C20:cr-stable]       */ __CPROVER_ensures((g_old.cr_flag != 0 && g_old.state != CAT_STATE_AFTER_FLUSH_RESET) ==> self->cr_flag != 0)
+/* [C20:cr-reset]        */ __CPROVER_ensures((RAN && g_old.state == CAT_STATE_AFTER_FLUSH_RESET) ==> (self->state == CAT_STATE_IDLE && self->cr_flag == 0 && self->cmd == NULL))
+/* [C11,C20:unit-newline]*/ __CPROVER_ensures((self->state == CAT_STATE_FLUSH_IO_WRITE_WAIT && g_old.state != CAT_STATE_FLUSH_IO_WRITE_WAIT) ==> (self->position == 0 && ((self->write_state == V_WS_BEFORE && self->write_buf == &h_crlf[self->cr_flag ? 0 : 1]) || (self->write_state == V_WS_AFTER && self->write_buf == ABUFP && g_old.state == CAT_STATE_PRINT_CMD))))
+/* [C01,C11,C20:unit-phases]*/ __CPROVER_ensures((RAN && g_old.state == CAT_STATE_FLUSH_IO_WRITE && AT_WRITES == 0) ==> (g_old.write_buf[g_old.position] == 0 && p_abuf_unchanged() && ((g_old.write_state == V_WS_BEFORE && self->state == CAT_STATE_FLUSH_IO_WRITE && self->write_state == V_WS_MAIN && self->write_buf == ABUFP && self->position == 0) || (g_old.write_state == V_WS_MAIN && self->state == CAT_STATE_FLUSH_IO_WRITE && self->write_state == V_WS_AFTER && self->write_buf == &h_crlf[self->cr_flag ? 0 : 1] && self->position == 0) || (g_old.write_state == V_WS_AFTER && self->state == g_old.write_state_after))))
+/* [C01,C11:flush-wait]  */ __CPROVER_ensures((RAN && g_old.state == CAT_STATE_FLUSH_IO_WRITE_WAIT) ==> (AT_WRITES == 0 && self->position == g_old.position && self->write_buf == g_old.write_buf && self->write_state == g_old.write_state && self->write_state_after == g_old.write_state_after && (self->state == CAT_STATE_FLUSH_IO_WRITE_WAIT || self->state == CAT_STATE_FLUSH_IO_WRITE) && p_abuf_unchanged()))
+/* [C03,C11:halves-separate] */ __CPROVER_ensures((RAN && g_w < H_CAPU) ==> UBUFP[g_w] == G_UBYTE)
 ;
 
 #endif
